@@ -128,6 +128,71 @@ def rand_op(rng, kind, cap, fresh):
     return [name]
 
 
+# S-C12 (round 3): capacities with every residue structure an index shortcut could depend on (1, 2, powers of two
+# and their neighbours, even non-powers of two, odd composites, primes) -- `& (cap - 1)` for `% cap` is right for
+# powers of two only, a single conditional subtraction only for one wrap, ...
+CAPSET = (1, 2, 3, 4, 5, 6, 7, 8, 9, 10, 12, 15, 16, 17, 24, 31, 32, 33, 48, 63, 64, 65, 96, 100, 127, 128, 129,
+          255, 256, 257)
+
+
+N_CAPWRAP = [0]
+
+
+def capwrap_cases(fresh):
+    """deterministic: every capacity of CAPSET x fill levels (every level up to capacity 10; corner levels
+    0,1,2,3,cap/2,cap-2,cap-1,cap up to 65; 0,1,cap/2,cap-1,cap above) held while 2 cap + 3 items pass through, so
+    start and start + len wrap at least twice; reads at the corner indices on the way and when start == cap - 1.
+    Bounded: push+pop below capacity (the not-full path; above capacity 65 every other stretch of 8 items goes through
+    extend + drain in blocks of 4), evicting pushes at capacity.  Fixed: 2 cap + 3 pushes from (corner) `first`
+    indices, reads at indices up to 2 cap (they wrap)."""
+    def corners(cap, top, level=0):
+        if cap <= 10:
+            return list(range(top + 1))
+        c = ({0, 1, 2, 3, cap // 2, cap - 2, cap - 1, cap}, {0, 1, cap // 2, cap - 1, cap}, {0, cap // 2, cap - 1})[level]
+        return sorted(v for v in c if v <= top)
+    out, k = [], 0
+    for cap in CAPSET:
+        data = [fresh() for _ in range(cap)]
+        rounds = 2 * cap + 3
+        every = max(1, rounds // 5)
+        big = cap > 65
+        starts = corners(cap, cap - 1)
+        for fill in corners(cap, cap, 1 if big else 0):
+            cur = starts[k % len(starts)]
+            reads = [[("get", "idx")[(k + i) % 2], i] for i in corners(cap, cap) if i < fill or i == fill == 0]
+            ops, r, nread, swept = [], 0, 0, False
+            while r < rounds:
+                if big and (r // 8) % 2 == 1 and fill + 4 <= cap:
+                    m = min(4, rounds - r)
+                    ops += [["extend"] + [fresh() for _ in range(m)], ["drain", m]]
+                else:
+                    m = 1
+                    ops += [["push", fresh()]] if fill == cap else [["push", fresh()], ["pop"]]
+                r += m
+                cur = (cur + m) % cap
+                if r >= (nread + 1) * every:
+                    ops += reads[nread % 2::2] + [[("slices", "slicesmut", "len", "full")[nread % 4]]]
+                    nread += 1
+                if not swept and cur >= cap - min(cap, 4):      # the live region is about to pass the end of the storage
+                    ops += reads + [["slices"]]
+                    swept = True
+            ops += [["iter"], ["extend"] + [fresh() for _ in range(min(cap, 5) + 2)], ["slices"], ["drain", fill // 2],
+                    ["push", fresh()], ["iter"], ["drainlen"]]
+            out.append(build(dict(kind="B", store=k % 5, start=starts[k % len(starts)], len=fill, data=data, ops=ops)))
+            k += 1
+        for first in corners(cap, cap - 1, 2 if big else (1 if cap > 10 else 0)):
+            reads = [[("get", "idx")[(k + i) % 2], i] for i in sorted(set(corners(cap, cap) + [cap + 1, 2 * cap - 1, 2 * cap]))]
+            ops = []
+            for r in range(rounds):
+                ops.append(["push", fresh()])
+                if r % every == every - 1:
+                    ops += reads[(r // every) % 2::2] + [[("slices", "iter", "len", "slicesmut")[(r // every) % 4]]]
+            ops += [["iter"], ["iterloop", 2 * min(cap, 20) + 1], ["setfirst", (first + cap // 2) % cap], ["push", fresh()], ["iter"]]
+            out.append(build(dict(kind="F", store=k % 5, first=first, data=data, ops=ops)))
+            k += 1
+    return out
+
+
 def gen_cases(rng, tier):
     items = []
     counter = [100]
@@ -135,6 +200,10 @@ def gen_cases(rng, tier):
     def fresh():
         counter[0] += 1
         return counter[0]
+
+    # 0. every capacity of CAPSET, every (corner) fill level / first index, indices wrapping at least twice
+    items += capwrap_cases(fresh)
+    N_CAPWRAP[0] = len(items)
 
     # 1. exhaustive one/two-step from every raw state (valid and just-invalid) of capacities 0..CAP
     CAP = 6 if tier == "quick" else 8
@@ -211,11 +280,11 @@ def gen_cases(rng, tier):
                         store += 1
     n_exh = len(items)
     # 2. random histories from random raw states
-    n_rand = 1500 if tier == "quick" else 30000
+    n_rand = 1300 if tier == "quick" else 30000
     for k in range(n_rand):
         r = rng.fork(f"hist{k}")
         kind = "B" if r.chance(3, 5) else "F"
-        cap = r.choice([1, 1, 2, 2, 3, 3, 4, 5, 6, 7, 8, 9, 13, 16, 31, 64])
+        cap = r.choice([1, 1, 2, 2, 3, 3, 4, 5, 6, 7, 8, 9, 13, 16, 31, 64, 10, 12, 15, 24, 48])
         if tier == "thorough" and r.chance(1, 20):
             cap = r.range(65, 300)
         data = [fresh() for _ in range(cap)]
@@ -566,7 +635,7 @@ def main(rep, tier, seed):
         info["generated_runner_self_test"] = dict(generated_vs_crate_failing=nc, generated_vs_hand_failing=nh, note=note)
         if note:
             rep.violation("generated_runner", {"kind": "the runner of the generated model could not be evaluated", "log": note}, no_input=True)
-    dist = {"ops_histogram": hist, "exhaustive_small_state_cases": n_exh, "random_histories": len(items) - n_exh - len(corpus),
+    dist = {"ops_histogram": hist, "exhaustive_small_state_cases": n_exh - N_CAPWRAP[0], "capwrap_cases": N_CAPWRAP[0], "capwrap_capacities": list(CAPSET), "random_histories": len(items) - n_exh - len(corpus),
             "corpus_cases": len(corpus), "panic_observations": panics, "profiles": ["dev (model compared)", "release (diffed against dev)", "relchk (diffed against dev)"], "profile_differences": len(pdiffs)}
     samples = [items[i]["line"] for i in (0, n_exh // 2, len(items) - 1)]
     return finish(rep, info, len(items), nontriv, dist, samples, bad)
@@ -584,7 +653,7 @@ def finish(rep, info, n, nontriv, dist, samples, bad=()):
         "translator": info.get("translator", {}), "translator_tie_broken": info.get("broken"), "search": info.get("search"),
         "generated_runner_self_test": info.get("generated_runner_self_test"),
         "evaluations": n, "distinct_nontrivial": nontriv,
-        "rule": "every raw (start,len)/(first) state of capacities 0..6 (quick) x each operation followed by a full observation sweep, plus random histories (1500 quick) from random raw states over 5 storage kinds (Vec, Box<[T]>, &mut [T], [T; N], Vec with spare capacity); non-trivial = an evicting push or a wrapped slice pair occurs (Bounded), first != 0 (Fixed)",
+        "rule": "the capwrap family (30 capacities 1..257 covering 1, 2, powers of two and their neighbours, even non-powers of two, odd composites and primes x every/corner fill level (Bounded) and first index (Fixed), 2 cap + 3 items passed through so that the indices wrap at least twice, reads at corner indices), every raw (start,len)/(first) state of capacities 0..6 (quick) x each operation followed by a full observation sweep, plus random histories (1300 quick, capacities 1..64) from random raw states over 5 storage kinds (Vec, Box<[T]>, &mut [T], [T; N], Vec with spare capacity); non-trivial = an evicting push or a wrapped slice pair occurs (Bounded), first != 0 (Fixed)",
         "samples": samples, "input_distribution": dist, "disagreements": len(bad),
         "explanation": "theorems: refinement of the model to the ideal queue/delay line for all capacities, states and histories, and equality of every method regenerated from the source with the hand model's on all inputs; ties: the model regenerated by the translator on this run (proved equal), and the model's executable definitions run by coqc on the same cases as the real crate, all observations compared exactly",
     }
